@@ -535,3 +535,88 @@ Proof.
   rewrite firstn_length, skipn_length, app_length, Hj. fold i. repeat split; try lia.
   f_equal. f_equal. f_equal. unfold i. rewrite firstn_app, firstn_all, Nat.sub_diag. cbn [firstn]. now rewrite app_nil_r.
 Qed.
+
+(** ------------------------------------------------------------ loadlistfd as a whole *)
+(** the block: pointer table area [P] (8 * (n+1) bytes), the kept entries each followed by
+    one NUL, directly behind the table and adjacent, then n spare bytes; pointer i
+    addresses entry i; the table ends with NULL *)
+Definition list_block (es : list bytes) (b : block) : Prop :=
+  exists P tail, length P = (length es + 1) * PTR_SIZE /\ length tail = length es /\
+    mem b = P ++ cat es ++ tail /\ ptrs b = map Some (offsets (length P) es) ++ [None].
+
+Theorem loadlist_arr_correct (cf : bytes -> bool) (fill : nat -> N) (content : bytes) :
+  match list_spec content with
+  | None => loadlist_arr cf fill content = Ok LErr
+  | Some es =>
+      match keep cf es with
+      | [] => loadlist_arr cf fill content = Ok (LOk None)
+      | kept => exists b, loadlist_arr cf fill content = Ok (LOk (Some b)) /\ list_block kept b
+      end
+  end.
+Proof.
+  unfold loadlist_arr. rewrite lloadfile3_arr_spec.
+  destruct (lloadfile3 content) as [_ Hok].
+  destruct (list_spec content) as [es|]; [|reflexivity]. specialize (Hok es eq_refl). cbn [bind].
+  destruct (Nat.eqb (length (cat es)) 0) eqn:E0.
+  { apply Nat.eqb_eq in E0. apply cat_nil_inv in E0. subst es. reflexivity. }
+  apply Nat.eqb_neq in E0.
+  assert (Hes : es <> []) by (intros ->; apply E0; reflexivity).
+  pose proof (count_loop_spec cf es [] 0 false (S (length (cat es))) Hok) as Hc.
+  cbn [app length Nat.add orb] in Hc. rewrite Hc by (pose proof (cat_length_ge es); lia). clear Hc. cbn [bind].
+  destruct (Nat.eqb (length (keep cf es)) 0) eqn:E1.
+  { apply Nat.eqb_eq in E1. destruct (keep cf es); [reflexivity|discriminate]. }
+  assert (Hc2 : (if existsb cf es then compact_buffer (blank cf es) (length (cat es)) else Ok (length (cat es), blank cf es))
+                = Ok (length (cat (keep cf es)), cat (keep cf es))).
+  { destruct (existsb cf es) eqn:Ee.
+    - rewrite compact_buffer_spec.
+      + rewrite <- (blank_length cf es), firstn_all, pieces_blank by assumption. reflexivity.
+      + right. right. split; [symmetry; apply blank_length|]. now apply blank_ends_nul.
+      + rewrite blank_length. lia.
+    - destruct (blank_all_kept cf es Ee) as [-> ->]. reflexivity. }
+  rewrite Hc2. clear Hc2. cbn [bind].
+  pose proof (keep_ok cf es Hok) as Hkok.
+  destruct (keep cf es) as [|k0 ks] eqn:Ek; [discriminate|].
+  set (kept := k0 :: ks) in *.
+  destruct (data_array_spec fill (length kept) (cat kept)) as (P & tail & HP & Ht & Ed).
+  { unfold kept. rewrite cat_cons. destruct k0; discriminate. }
+  rewrite Ed. cbn [bind].
+  rewrite <- HP. rewrite ptr_loop_spec by assumption. cbn [bind].
+  eexists. split; [reflexivity|].
+  exists P, tail. cbn [mem ptrs]. auto.
+Qed.
+
+Lemma Forall2_weaken {A B} (R S : A -> B -> Prop) (l1 : list A) (l2 : list B) :
+  (forall a b, R a b -> S a b) -> Forall2 R l1 l2 -> Forall2 S l1 l2.
+Proof. intros H F. induction F; constructor; auto. Qed.
+
+(** what the caller sees through the pointers: exactly the kept entries, each read inside the block *)
+Lemma list_block_read (es : list bytes) (b : block) :
+  Forall entry_ok es -> list_block es b ->
+  exists offs, read_ptrs (mem b) (ptrs b) = Ok (combine offs es) /\ length offs = length es /\
+    Forall2 (fun p e => (length es + 1) * PTR_SIZE <= p /\ p + length e < length (mem b) /\
+                        sub (mem b) p (length e + 1) = e ++ [0%N]) offs es.
+Proof.
+  intros Hok (P & tail & HP & Ht & Em & Ep). rewrite Em, Ep.
+  exists (offsets (length P) es). split; [now apply read_ptrs_spec|].
+  rewrite <- HP. clear HP Em Ep b.
+  assert (G : forall es P tail, Forall entry_ok es ->
+            length (offsets (length P) es) = length es /\
+            Forall2 (fun p e => length P <= p /\ p + length e < length (P ++ cat es ++ tail) /\
+                                sub (P ++ cat es ++ tail) p (length e + 1) = e ++ [0%N]) (offsets (length P) es) es).
+  { clear. induction es as [|e es IH]; intros P tail Hok; [split; constructor|].
+    inversion Hok as [|? ? _ Hoks]; subst. cbn [offsets length].
+    specialize (IH (P ++ e ++ [0%N]) tail Hoks).
+    replace (length (P ++ e ++ [0%N])) with (length P + length e + 1) in IH by (rewrite !app_length; cbn [length]; lia).
+    replace ((P ++ e ++ [0%N]) ++ cat es ++ tail) with (P ++ cat (e :: es) ++ tail) in IH
+      by (rewrite cat_cons, <- !app_assoc; reflexivity).
+    destruct IH as [IL IF]. split; [lia|]. constructor.
+    - split; [lia|]. split.
+      + rewrite cat_cons, !app_length. cbn [length]. lia.
+      + unfold sub. rewrite skipn_app, skipn_all, Nat.sub_diag. cbn [skipn app].
+        rewrite cat_cons. replace (e ++ 0%N :: cat es) with ((e ++ [0%N]) ++ cat es) by (now rewrite <- app_assoc).
+        rewrite <- app_assoc, firstn_app.
+        replace (length e + 1) with (length (e ++ [0%N])) by (rewrite app_length; cbn [length]; lia).
+        rewrite firstn_all, Nat.sub_diag. cbn [firstn]. now rewrite app_nil_r.
+    - eapply Forall2_weaken; [|exact IF]. cbv beta. intros p e' [H1 [H2 H3]]. repeat split; try lia; assumption. }
+  apply G. assumption.
+Qed.
